@@ -25,7 +25,7 @@ def locate(relfile, root=None):
     return _locate_path(path, relfile)
 
 
-def desugar(loc, relfile, fn_paths, rules, _pass=0):
+def desugar(loc, relfile, fn_paths, rules, _pass=0, optional=()):
     """Engine V-D: apply the closed list of mechanical desugarings (DESIGN.md 2.1b) to the named functions of a
     file and re-locate the rewritten text.  Returns (new_loc, records)."""
     src = loc["src"]
@@ -106,6 +106,15 @@ def desugar(loc, relfile, fn_paths, rules, _pass=0):
                     new = f"{recv}.pv_splice({lo}, {hi}, {arg});"
                     rewrites.append((v["call"][0], v["call"][1], new))
                     records.append({"fn": fp, "rule": "D18 let _ = V.splice(LO..HI, ARG);  =>  V.pv_splice(LO, HI, ARG);   (spec/std_vec_splice.rs: the documented effect of Vec::splice whose iterator is dropped at once; panics unless LO <= HI <= len)",
+                                    "original": src[v["call"][0]:v["call"][1]], "rewritten": new})
+                    continue
+                if v["rule"] == "D36":
+                    ex = src[v["expr"][0]:v["expr"][1]]
+                    names = v["names"]
+                    binds = " ".join(f"let {nm} = &{ex}[{i}];" for i, nm in enumerate(names) if nm)
+                    new = f"if {ex}.len() == {len(names)} {{ {binds}"
+                    rewrites.append((v["call"][0], v["call"][1], new))
+                    records.append({"fn": fp, "rule": "D36 if let [p0, .., pn-1] = S { B }  =>  if S.len() == n { let pi = &S[i]; B }   (identifiers and wildcards only, no rest pattern)",
                                     "original": src[v["call"][0]:v["call"][1]], "rewritten": new})
                     continue
                 if v["rule"] == "D34":
@@ -339,9 +348,9 @@ def desugar(loc, relfile, fn_paths, rules, _pass=0):
                     records.append({"fn": fp, "rule": "D4 X.iter().for_each(|p| B)  =>  for p in X.iter() { B }",
                                     "original": src[v["call"][0]:v["call"][1]], "rewritten": new})
     if not rewrites:
-        if _pass > 0:
+        if _pass > 0 or all(r in optional for r in rules):
             return loc, []
-        raise Undecided(f"{relfile}: desugaring requested for {fn_paths} but no candidate of rules {rules} found")
+        raise Undecided(f"{relfile}: desugaring requested for {fn_paths} but no candidate of rules {[r for r in rules if r not in optional]} found")
     if len(rewrites) != len(records):
         raise Undecided(f"{relfile}: internal error: desugaring rewrites and records out of step")
     # nested candidates: the innermost ones are rewritten in this pass, the enclosing ones in the next pass
@@ -368,7 +377,7 @@ def desugar(loc, relfile, fn_paths, rules, _pass=0):
     if postponed:
         if _pass >= 4:
             raise Undecided(f"{relfile}: desugaring does not reach a fixed point")
-        new_loc, more = desugar(new_loc, relfile, fn_paths, rules, _pass + 1)
+        new_loc, more = desugar(new_loc, relfile, fn_paths, rules, _pass + 1, optional)
         records += more
     return new_loc, records
 
@@ -730,9 +739,11 @@ class Unit:
             relfile = item["file"]
             loc = locate(relfile, self.root)
             iid = item["id"]
-            if item.get("desugar"):
+            if item.get("desugar") or item.get("desugar_optional"):
+                # desugar_optional: rules that only apply to shapes the pinned text does not have (a change may introduce them)
                 targets = ([item["path"] + "::" + m for m in item["methods"]] if "methods" in item else [item["path"]])
-                loc, recs = desugar(loc, relfile, targets, item["desugar"])
+                loc, recs = desugar(loc, relfile, targets, list(item.get("desugar", [])) + list(item.get("desugar_optional", [])),
+                                    optional=tuple(item.get("desugar_optional", [])))
                 desugared += recs
             if "methods" in item and item.get("kind") not in ("macro", "raw"):
                 targets = [item["path"] + "::" + m for m in item["methods"]]
